@@ -80,8 +80,8 @@ REGISTRY = {
         "technique": "runtime monitoring: ground-truth oracle over tree snapshots of real CLI runs",
         "parts": [K.cli_c05],
         "rule": "series of 1-8 patches over 1-6 files (modify/create/delete/rename/chmod/truncate, several entries per file, all header dialects, -pN, -R), "
-                "a failing patch at a random position (poisoned hunks in a random subset of its files, missing file, create-over-existing, delete-mismatch, "
-                "misordered hunks) x backup always/onfail/never/default x threads 1/2/4/16 x -q/default/-v x prior applied state x goal -a/N. "
+                "a failing patch at a random position (poisoned hunks in a random subset of its files - also in a file patch that another one for the same file follows -, missing file, create-over-existing, "
+                "delete-mismatch, misordered hunks, git rename onto an existing file) x backup always/onfail/never/default x threads 1/2/4/16 x -q/default/-v x prior applied state x goal -a/N. "
                 "Non-trivial: the failing patch is not the first of the run, or it has several file entries; distinct by (workspace shape, configuration).",
         "floor": floors(("failing-patch-not-first", 100), ("multi-file-failing-patch", 100), ("runs-applying-everything", 100),
                         ("failing-file-patch-followed-by-another-for-the-same-file:verbosity=default", 10)),
@@ -92,8 +92,10 @@ REGISTRY = {
         "technique": "runtime monitoring: forced-schedule stress (hook gates) + differential oracle + offline trace checker; TSan in thorough",
         "parts": [K.cli_c06, K.san_c06],
         "rule": "series with renames / creates / deletes spread over several workers and a failing patch at a random position, threads 2/3/4/8/16, backup modes, -q/default, 10% dry-run; per workspace: one natural traced run, "
-                "then no-run-ahead, full-run-ahead, one intermediate depth and two random-delay schedules derived from the trace. Non-trivial/distinct: (workspace, thread count, realised interleaving signature = sorted run-ahead depth vector + unroll counts).",
-        "floor": floors(("parallel-runs-compared", 1000), ("runs-with-run-ahead", 100), ("schedule:no-run-ahead", 50), ("schedule:full-run-ahead", 50), ("run-ahead-file-patches-unrolled", 100), ("rotation-shape-runs", 30), ("cleanup-race-shape:directory-shared-by-two-save-workers", 20)),
+                "then no-run-ahead, full-run-ahead, one intermediate depth, the save worker owning the failing patch's files saving last / first (save-owner gates), and two random-delay schedules derived from the trace; "
+                "25% of the failing series reject into a directory created by an earlier patch of the same run. Non-trivial/distinct: (workspace, thread count, realised interleaving signature = sorted run-ahead depth vector + unroll counts).",
+        "floor": floors(("parallel-runs-compared", 1000), ("runs-with-run-ahead", 100), ("schedule:no-run-ahead", 50), ("schedule:full-run-ahead", 50), ("run-ahead-file-patches-unrolled", 100), ("rotation-shape-runs", 30), ("cleanup-race-shape:directory-shared-by-two-save-workers", 20),
+                        ("schedule:failing-owner-saves-last", 30), ("schedule:failing-owner-saves-first", 30), ("shape:reject-in-a-directory-created-by-this-run", 30)),
     },
     "C07": {
         "level_text": "the real FilenameDistributor is driven (hook sub-command) over every canonical sequence of pairs within the bound and random longer ones and its map is compared with an independent union-find; in real parallel pushes the hook trace must show every file loaded by one apply worker and saved by one save worker",
@@ -120,8 +122,11 @@ REGISTRY = {
         "technique": "runtime monitoring: differential oracle over tree/.rej/applied-patches snapshots of split vs single pushes",
         "parts": [K.cli_c09],
         "rule": "random series (delete-then-recreate, create-then-modify, rename chains, mode changes, failing patches); goal g; single = push g / push <name> / push -a; "
-                "split = random sequence of push / push n / push <name> / push -a with threads 1/2/4. Non-trivial: >= 2 invocations of the split applied something.",
-        "floor": floors(("splits-with>=2-applying-invocations", 200), ("idempotence-checked", 50), ("failure-resumption-checked", 50)),
+                "split = random sequence of push / push n / push <name> / push -a with threads 1/2/4; the single invocation's record is also compared with what the goal means by construction; "
+                "15% of the series keep patches in sub-directories (one named like the patch directory, with the base name of an earlier top-level patch), 20% of the workspaces are driven with -d (relative and absolute spellings) from the parent directory, "
+                "10% reject into a directory created by an earlier patch of the series. Non-trivial: >= 2 invocations of the split applied something.",
+        "floor": floors(("splits-with>=2-applying-invocations", 200), ("idempotence-checked", 50), ("failure-resumption-checked", 50), ("goal-checked-against-ground-truth", 1000),
+                        ("workspaces-with-patches-in-sub-directories", 100), ("workspaces-driven-with--d:relative", 100)),
     },
     "C10": {
         "level_text": "real --dry-run executions under strace: full recursive snapshot (bytes, mode, inode, nlink, mtime) before/after, audit of every write-class syscall, and comparison of exit status / failing patch with a real run on a copy",
@@ -162,7 +167,7 @@ REGISTRY = {
         "rule": "failing patches with failures in a random subset of their files and hunks (poisoned hunks, missing file, create-over-existing, delete-mismatch, "
                 "misordered), files in sub-directories / without extension / several dots / in a directory that does not exist, reversed patches, threads 1/2/4/16. "
                 "Non-trivial: the failing patch has >= 2 file entries or a file with both applying and failing hunks.",
-        "floor": floors(("reject-files-verified", 500), ("file-with-applying-and-failing-hunks", 50), ("several-files-rejected", 50), ("reject-legitimately-skipped-(no-directory)", 20)),
+        "floor": floors(("reject-files-verified", 500), ("file-with-applying-and-failing-hunks", 50), ("several-files-rejected", 50), ("reject-legitimately-skipped-(no-directory)", 20), ("shape:reject-in-a-directory-created-by-this-run", 20)),
     },
     "C14": {
         "level_text": "differential over the option lattice: the same workspace pushed with -q and with a random option set; tree, .pc, rejects and exit status compared",
@@ -200,8 +205,8 @@ REGISTRY = {
         "parts": [K.cli_c17],
         "rule": "applied-patches longer than series / with unknown names / reordered / edited / duplicated / garbage; goal = unknown name, already applied name (also when everything is applied), "
                 "a number too big to parse, a truncated name; a missing / directory / truncated / malformed / binary / nameless patch at a random position of the range with no failing patch before it; "
-                "huge parseable counts (2^64-1, 2^63, 2^32, 0) must behave like 'as many as there are'. threads 1/4, -q/default, prior applied state. All cases are refusal paths; distinct by (case, state, goal, configuration).",
-        "floor": floors(("refusals-verified", 1000), ("huge-counts-verified", 100), ("case:state:longer", 20), ("case:goal:applied-name-all-applied", 20), ("case:badpatch:missing", 20)),
+                "huge parseable counts (2^64-1, 2^63, 2^32, 0) must behave like 'as many as there are'. threads 1/4, -q/default, prior applied state, 20% with -d (relative / absolute) from the parent directory. All cases are refusal paths; distinct by (case, state, goal, configuration).",
+        "floor": floors(("refusals-verified", 1000), ("huge-counts-verified", 100), ("case:state:longer", 20), ("case:goal:applied-name-all-applied", 20), ("case:badpatch:missing", 20), ("runs-with--d", 200)),
     },
     "C18": {
         "level": "fault_enumeration",
